@@ -678,6 +678,17 @@ class _FuncEval:
         def is_const(x, v):
             return isinstance(x, ast.Constant) and x.value is v
         if mode == "T1":
+            # T1b  `for i in range(lo, hi): ... return i ...` with the tail `return hi - 1`: the value of i after an exhausted non-empty
+            # range.  Expanded like T1 (x = i after the loop); on an empty range the expansion reads an unbound i where the helper
+            # returns hi - 1 -- the obligation that i is bound (C18, idiom D12: non-empty range by a dominating guard) is then part of
+            # what is proved, so the two agree on every path that passes the checks.
+            if (isinstance(loop, ast.For) and isinstance(loop.target, ast.Name) and isinstance(loop.iter, ast.Call)
+                    and isinstance(loop.iter.func, ast.Name) and loop.iter.func.id == "range" and len(loop.iter.args) == 2
+                    and not loop.iter.keywords and isinstance(tail.value, ast.BinOp) and isinstance(tail.value.op, ast.Sub)
+                    and isinstance(tail.value.right, ast.Constant) and tail.value.right.value == 1
+                    and ast.dump(tail.value.left) == ast.dump(loop.iter.args[1])
+                    and all(r.value is not None and isinstance(r.value, ast.Name) and r.value.id == loop.target.id for r in rets)):
+                tail = ast.copy_location(ast.Return(value=ast.Name(id=loop.target.id, ctx=ast.Load())), tail)
             if not (isinstance(tail.value, ast.Name) and all(r.value is not None and same_name(r.value, tail.value) for r in rets)):
                 return None
         else:
